@@ -129,6 +129,24 @@ def _parse_int(x: str) -> int:
     return int(x)
 
 
+def _is_inside_base64(fields: List[str], current_token: str) -> bool:
+    """Return True if the tokenizer is in the middle of a base64 literal.
+
+    "/" is part of the base64 alphabet: "//" inside `base64 AA//`, `b64(AA//)` is data,
+    not the start of a comment.
+
+    Args:
+        fields: tokens found so far.
+        current_token: characters of the token being read.
+
+    Returns:
+        True if the characters being read belong to a base64 encoded literal.
+    """
+    if current_token.startswith("base64(") or current_token.startswith("b64("):
+        return ")" not in current_token
+    return bool(fields) and fields[-1] in ("base64", "b64")
+
+
 def _split_instruction_into_tokens(line: str) -> List[str]:
     """Split given instruction into tokens.
 
@@ -176,7 +194,9 @@ def _split_instruction_into_tokens(line: str) -> List[str]:
                 i += 1
             else:
                 raise ParseError(f"missing closing qoute {line}")
-        elif line[i : i + 2] == "//":
+        elif line[i : i + 2] == "//" and not _is_inside_base64(fields, line[start:i]):
+            if start != i:
+                fields.append(line[start:i])
             fields.append(line[i:])
             return fields
         else:
@@ -501,7 +521,7 @@ def parse_line(line: str) -> Optional[instructions.Instruction]:
     source_code_line = line
     fields = _split_instruction_into_tokens(line)
     comment = ""
-    if fields[-1].startswith("//"):
+    if fields[-1].startswith("//") and not _is_inside_base64(fields[:-1], ""):
         comment = fields[-1]
         fields = fields[:-1]
 
